@@ -188,6 +188,8 @@ class C09Session(Session):
 
     def epilogue(self):
         for i, o in enumerate(self.world.objs):
+            if self.spec["objects"][i].get("bystander"):
+                continue
             op = {"op": "move", "o": i, "d": [0.125, 0.0, -0.25], "start": "auto"}
             out = pathops.exec_path_op(o, op)
             if out != "ok":
@@ -235,6 +237,7 @@ class Sim:
             "rejects": rng.random() < 0.8,
             "wild_start": rng.random() < 0.8,
             "alias": rng.random() < 0.7,
+            "with_parent": rng.random() < 0.3,
         }
 
     def new_world_spec(self, rng, cfg):
@@ -249,6 +252,12 @@ class Sim:
             elif cls == "Sensor":
                 s["kw"] = {}
             objs.append(s)
+        if cfg.get("with_parent"):
+            # the objects are children of a collection that is never operated itself: an object with a
+            # parent, operated alone, follows the same path semantics and the parent does not move
+            kids = [i for i, o in enumerate(objs) if o["cls"] != "Collection" or rng.random() < 0.5]
+            objs.append({"cls": "Collection", "kw": {}, "pos": gen.path(rng, rng.choice([1, 2])), "children": kids,
+                         "bystander": True})
         return {"objects": objs}
 
     def session(self, spec, cfg):
@@ -256,7 +265,8 @@ class Sim:
 
     def gen_op(self, rng, cfg, sess):
         w = sess.world
-        o = rng.randrange(len(w.objs))
+        targets = [i for i, sp in enumerate(sess.spec["objects"]) if not sp.get("bystander")] or [0]
+        o = rng.choice(targets)
         N = len(w.objs[o]._position)
         kinds = cfg["kinds"]
         if N > 40:  # keep paths bounded
